@@ -18,6 +18,9 @@ TRANSLATORS = [t1_modetables.translate]
 OBLIGATIONS = ["NiftyVerif.C01." + t for t in (
     "ilog_spec", "validMode_spec", "modeTable_is_xor", "capTable_matches_modeTable", "addInverse_is_closure",
     "dom_tgt_masks", "backwards_spec", "mask_specs", "adapter_table_specs", "diag_kind_specs",
+    "den_scaling", "den_diag", "den_adapter", "den_chain", "den_sum", "den_sandwich", "den_null", "den_idEntry",
+    "diagScale_sound", "diagCombineProd_sound", "diagCombineProd_comm", "diagAdd_sound", "diagCombineSum_sound",
+    "flip_scaling_sound", "flip_diag_sound", "flip_adapter_sound",
 )]
 RULE = ("random construction scripts (typed generator over 8 small domains, 14 leaves with independently known exact "
         "matrices, scaling/diagonal/partial-space diagonal/null/block-diagonal/sandwich/InversionEnabler, combined with "
